@@ -4,7 +4,11 @@ patch=$1; id=$2; tier=${3:-quick}
 cd /repo || exit 9
 git diff --quiet || { echo "repo dirty"; exit 9; }
 git apply "$patch" || { echo "APPLY-FAILED"; exit 9; }
-cd /verif && timeout 1800 ./check $id --tier $tier > /tmp/try_$$.log 2>&1; rc=$?
+cd /verif
+# the evidence file committed under /verif must describe the unchanged tree: keep it aside while the changed tree is checked
+[ -f evidence/$id.json ] && cp evidence/$id.json /tmp/try_$$.evidence
+timeout 1800 ./check $id --tier $tier > /tmp/try_$$.log 2>&1; rc=$?
+[ -f /tmp/try_$$.evidence ] && mv /tmp/try_$$.evidence evidence/$id.json
 git -C /repo checkout -- . ; git -C /repo clean -fdq internal
 echo "rc=$rc $(grep -c '^VIOLATION' /tmp/try_$$.log) violations; $(grep -E '^(VIOLATION|INCONCLUSIVE|  violated)' /tmp/try_$$.log | head -3 | cut -c1-220 | tr '\n' '|')"
 rm -f /tmp/try_$$.log
